@@ -143,10 +143,45 @@ func DiscoverRoles(p *Prog) *Roles {
 			}
 		}
 	}
-	// the frame-read loop may live in a callee of the go target
+	// W sites: Write on a connection reached from a Call value (service side reply path)
+	for _, f := range p.FuncsOf(pkgVarlink) {
+		for _, cs := range callsIn(f, false) {
+			if !isProtoWrite(cs) {
+				continue
+			}
+			recv := ro.T.T(cs.Common.Value)
+			if cs.Common.IsInvoke() {
+				// receiver rooted in a *Call / Call value
+				if ro.rootedInCall(cs.Common.Value) {
+					ro.WSites = append(ro.WSites, cs)
+					ro.WFuncs = appendFn(ro.WFuncs, f)
+				}
+			}
+			_ = recv
+		}
+	}
+	// the connection handler is analysed in its inlined view (inline.go): the frame-read loop may be written in the go
+	// target, in a callee, or as `for !s.serveOne(...) {}` around a helper that reads and dispatches one frame. The
+	// dispatch entry (and HandleMessage) and everything outside package varlink stay calls.
 	ro.ConnEntry = ro.ConnLoop
 	var loops []*ssa.Function
+	keepLoop := func(callee *ssa.Function) bool {
+		return fnPkgPath(callee) != pkgVarlink || isDispatchTarget(p, ro, callee)
+	}
 	for _, e := range ro.ConnEntry {
+		v := p.Inlined(e, keepLoop)
+		hasLoopRead := false
+		for _, cs := range callsIn(v, false) {
+			if isProtoReadBytes(cs) && blockInLoop(cs.Instr.Block()) {
+				hasLoopRead = true
+			}
+		}
+		if hasLoopRead {
+			ro.CG.AddView(v)
+			loops = appendFn(loops, v)
+			continue
+		}
+		// not visible in the view (a callee that could not be inlined): the built function that holds the loop
 		found := false
 		var cands []*ssa.Function
 		for f := range ro.CG.Reach([]*ssa.Function{e}, false) {
@@ -168,23 +203,6 @@ func DiscoverRoles(p *Prog) *Roles {
 		}
 	}
 	ro.ConnLoop = loops
-	// W sites: Write on a connection reached from a Call value (service side reply path)
-	for _, f := range p.FuncsOf(pkgVarlink) {
-		for _, cs := range callsIn(f, false) {
-			if !isProtoWrite(cs) {
-				continue
-			}
-			recv := ro.T.T(cs.Common.Value)
-			if cs.Common.IsInvoke() {
-				// receiver rooted in a *Call / Call value
-				if ro.rootedInCall(cs.Common.Value) {
-					ro.WSites = append(ro.WSites, cs)
-					ro.WFuncs = appendFn(ro.WFuncs, f)
-				}
-			}
-			_ = recv
-		}
-	}
 	svcF = discoverServiceFields(p, ro)
 	return ro
 }
@@ -418,4 +436,22 @@ func discoverServiceFields(p *Prog, ro *Roles) svcFields {
 		}
 	}
 	return f
+}
+
+// isClientConnRecv: v is (a load of) the connection-wrapper member of a client Connection value - found by type: a member
+// of type *ctxio.Conn of the struct type varlink.Connection - whatever the member is called.
+func isClientConnRecv(v ssa.Value) bool {
+	for i := 0; i < 4 && v != nil; i++ {
+		switch x := v.(type) {
+		case *ssa.UnOp:
+			v = x.X
+		case *ssa.FieldAddr:
+			return isNamed(x.X.Type(), pkgVarlink, "Connection") && isNamed(x.Type().(*types.Pointer).Elem(), pkgCtxio, "Conn")
+		case *ssa.Field:
+			return isNamed(x.X.Type(), pkgVarlink, "Connection") && isNamed(x.Type(), pkgCtxio, "Conn")
+		default:
+			return false
+		}
+	}
+	return false
 }
